@@ -79,7 +79,7 @@ def run_pair(spec, harness, model, lines):
     return impl, mod
 
 
-def minimise(spec, harness, model, line, kind, budget=300):
+def minimise(spec, harness, model, line, kind, budget=300, known=None):
     budget = getopt(spec, "MINIMISE_BUDGET", budget)
     shrink = getopt(spec, "shrink", default_shrink)
     cur = line
@@ -101,7 +101,11 @@ def minimise(spec, harness, model, line, kind, budget=300):
             break
         spent += len(cands)
         for c, i, m in zip(cands, impl, mod):
-            k, _ = evaluate(spec, c, i, m)
+            k, w = evaluate(spec, c, i, m)
+            if k == kind and known and hasattr(spec, "classify"):
+                f = spec.classify(c, i, w)
+                if f and f in known and known[f]["status"] == "known":
+                    continue   # never let minimisation drift an unexplained failure into a known finding
             if k == kind and not (i or "").startswith("bad-"):
                 cur = c
                 improved = True
@@ -209,8 +213,24 @@ def pipeline(spec, pid, tier, seed, replay, keep, t0, no_evidence):
         reported_keys = set()
         known_printed = set()
         corr_broken = []
-        for (l, i, m, k, why) in failing[:getopt(spec, "MAX_REPORT", 40)]:
-            lm = minimise(spec, harness, model, l, k)
+        # known findings are recognised on the raw failing case first, so that many hits of a known finding early in the
+        # stream cannot crowd out a different violation; only unexplained failures are minimised (bounded number)
+        unexplained = []
+        for (l, i, m, k, why) in failing:
+            fid0 = spec.classify(l, i, why) if hasattr(spec, "classify") else None
+            if fid0 and fid0 in known and known[fid0]["status"] == "known":
+                if k == "oracle":
+                    res.oracle_failures += 1
+                    if fid0 not in known_printed:
+                        known_printed.add(fid0)
+                        print("KNOWN-FINDING: property=%s %s" % (pid, known[fid0]["description"]))
+                        res.known.append(fid0)
+                else:
+                    res.divergences += 1
+                continue
+            unexplained.append((l, i, m, k, why))
+        for (l, i, m, k, why) in unexplained[:getopt(spec, "MAX_REPORT", 40)]:
+            lm = minimise(spec, harness, model, l, k, known=known)
             ii, mm = run_pair(spec, harness, model, [lm])
             i2, m2 = ii[0], mm[0]
             k2, why2 = evaluate(spec, lm, i2, m2)
